@@ -1,5 +1,10 @@
 //! vp: compiler / package-manager properties (everything except the text-only and LSP ones).
+mod exec;
+mod fastc;
 mod pkgprops;
+mod progprops;
+mod smoke;
+mod swaygen;
 
 use vcommon::*;
 
@@ -18,6 +23,10 @@ fn main() {
                 "C20" => pkgprops::run_c20(&Ctx::new("C20", &tier)),
                 "C21" => pkgprops::run_c21(&Ctx::new("C21", &tier)),
                 "C22" => pkgprops::run_c22(&Ctx::new("C22", &tier)),
+                "C01" => progprops::run(&Ctx::new("C01", &tier)),
+                "C02" => progprops::run(&Ctx::new("C02", &tier)),
+                "gen-dump" => progprops::dump(&args[2..]),
+                "smoke" => smoke::run(&args[2..]),
                 "replay" => replay(&args[2]),
                 x => {
                     eprintln!("unknown command {x}");
